@@ -113,6 +113,9 @@ func umCorpusExtra() []UCase {
 		}
 		// two DISTINCT custom keys of one name that both accept the value (int and float64 "n"; string twice):
 		// the first one binds, the field is exposed once
+		// ... and two same-named custom keys of which only the SECOND accepts the value (int "n", string "n")
+		out = append(out, UCase{Cfg: UCfg{Defs: []UDef{{Kind: "k1", Keys: []int{15}}}, Reg: []int{0}, Strict: strict, Custom: []int{2, 30}},
+			Doc: &UDoc{Msg: "m", Kind: "k1", Fields: map[string]int{"n": umValueIndex("str")}}})
 		for _, custom := range [][]int{{2, 39}, {39, 2}, {0, 1}, {4, 2, 39}} {
 			out = append(out, UCase{Cfg: UCfg{Defs: []UDef{{Kind: "k1", Keys: []int{15}}}, Reg: []int{0}, Strict: strict, Custom: custom},
 				Doc: &UDoc{Msg: "m", Kind: "k1", Fields: map[string]int{"n": umValueIndex("f3"), "s": umValueIndex("str")}}})
